@@ -27,34 +27,62 @@ func enums() []*enumT {
 	nKey := int64(x509.VerifC33NumKeyAlgorithms())
 	return []*enumT{
 		{coq: "TVersion", bits: 16, inDomain: always,
-			marshal:   func(v int64) ([]byte, error) { x := tls.TLSVersion(v); return json.Marshal(&x) },
-			unmarshal: func(b []byte) (int64, error) { var x tls.TLSVersion; err := json.Unmarshal(b, &x); return int64(x), err }},
+			marshal: func(v int64) ([]byte, error) { x := tls.TLSVersion(v); return json.Marshal(&x) },
+			unmarshal: func(b []byte) (int64, error) {
+				var x tls.TLSVersion
+				err := json.Unmarshal(b, &x)
+				return int64(x), err
+			}},
 		{coq: "TCipher", bits: 16, inDomain: always,
-			marshal:   func(v int64) ([]byte, error) { x := tls.CipherSuiteID(v); return json.Marshal(&x) },
-			unmarshal: func(b []byte) (int64, error) { var x tls.CipherSuiteID; err := json.Unmarshal(b, &x); return int64(x), err }},
+			marshal: func(v int64) ([]byte, error) { x := tls.CipherSuiteID(v); return json.Marshal(&x) },
+			unmarshal: func(b []byte) (int64, error) {
+				var x tls.CipherSuiteID
+				err := json.Unmarshal(b, &x)
+				return int64(x), err
+			}},
 		{coq: "TCompression", bits: 8, inDomain: always,
-			marshal:   func(v int64) ([]byte, error) { x := tls.CompressionMethod(v); return json.Marshal(&x) },
-			unmarshal: func(b []byte) (int64, error) { var x tls.CompressionMethod; err := json.Unmarshal(b, &x); return int64(x), err }},
+			marshal: func(v int64) ([]byte, error) { x := tls.CompressionMethod(v); return json.Marshal(&x) },
+			unmarshal: func(b []byte) (int64, error) {
+				var x tls.CompressionMethod
+				err := json.Unmarshal(b, &x)
+				return int64(x), err
+			}},
 		{coq: "TCurve", bits: 16, inDomain: always,
 			marshal:   func(v int64) ([]byte, error) { x := tls.CurveID(v); return json.Marshal(&x) },
 			unmarshal: func(b []byte) (int64, error) { var x tls.CurveID; err := json.Unmarshal(b, &x); return int64(x), err }},
 		{coq: "TPointFormat", bits: 8, inDomain: always,
-			marshal:   func(v int64) ([]byte, error) { x := tls.PointFormat(v); return json.Marshal(&x) },
-			unmarshal: func(b []byte) (int64, error) { var x tls.PointFormat; err := json.Unmarshal(b, &x); return int64(x), err }},
+			marshal: func(v int64) ([]byte, error) { x := tls.PointFormat(v); return json.Marshal(&x) },
+			unmarshal: func(b []byte) (int64, error) {
+				var x tls.PointFormat
+				err := json.Unmarshal(b, &x)
+				return int64(x), err
+			}},
 		{coq: "TClientAuth", bits: 16, inDomain: always, extra: []int64{-1, -2, -77, -32768, 1 << 40, -(1 << 62), 1<<63 - 1, -(1 << 63)},
-			marshal:   func(v int64) ([]byte, error) { x := tls.ClientAuthType(v); return json.Marshal(&x) },
-			unmarshal: func(b []byte) (int64, error) { var x tls.ClientAuthType; err := json.Unmarshal(b, &x); return int64(x), err }},
+			marshal: func(v int64) ([]byte, error) { x := tls.ClientAuthType(v); return json.Marshal(&x) },
+			unmarshal: func(b []byte) (int64, error) {
+				var x tls.ClientAuthType
+				err := json.Unmarshal(b, &x)
+				return int64(x), err
+			}},
 		{coq: "TKeyUsage", bits: 16, inDomain: always, extra: []int64{1 << 16, 1<<32 - 1},
 			marshal:   func(v int64) ([]byte, error) { x := x509.KeyUsage(v); return json.Marshal(&x) },
 			unmarshal: func(b []byte) (int64, error) { var x x509.KeyUsage; err := json.Unmarshal(b, &x); return int64(x), err }},
 		// declared values only: names of undeclared public-key values collapse to "unknown_algorithm"
 		{coq: "TPubKeyAlg", bits: 5, inDomain: func(v int64) bool { return v >= 0 && v < nKey }, extra: []int64{-1, 1000},
-			marshal:   func(v int64) ([]byte, error) { x := x509.PublicKeyAlgorithm(v); return json.Marshal(&x) },
-			unmarshal: func(b []byte) (int64, error) { var x x509.PublicKeyAlgorithm; err := json.Unmarshal(b, &x); return int64(x), err }},
+			marshal: func(v int64) ([]byte, error) { x := x509.PublicKeyAlgorithm(v); return json.Marshal(&x) },
+			unmarshal: func(b []byte) (int64, error) {
+				var x x509.PublicKeyAlgorithm
+				err := json.Unmarshal(b, &x)
+				return int64(x), err
+			}},
 		// named algorithms only: the package's own test requires that UnknownSignatureAlgorithm fails to decode
 		{coq: "TSigAlg", bits: 5, inDomain: func(v int64) bool { return v >= 1 && v < nSig }, extra: []int64{-1, 1000},
-			marshal:   func(v int64) ([]byte, error) { x := x509.SignatureAlgorithm(v); return json.Marshal(&x) },
-			unmarshal: func(b []byte) (int64, error) { var x x509.SignatureAlgorithm; err := json.Unmarshal(b, &x); return int64(x), err }},
+			marshal: func(v int64) ([]byte, error) { x := x509.SignatureAlgorithm(v); return json.Marshal(&x) },
+			unmarshal: func(b []byte) (int64, error) {
+				var x x509.SignatureAlgorithm
+				err := json.Unmarshal(b, &x)
+				return int64(x), err
+			}},
 		{coq: "TEcId", bits: 16, inDomain: always,
 			marshal:   func(v int64) ([]byte, error) { x := zj.TLSCurveID(v); return json.Marshal(&x) },
 			unmarshal: func(b []byte) (int64, error) { var x zj.TLSCurveID; err := json.Unmarshal(b, &x); return int64(x), err }},
@@ -152,13 +180,13 @@ func sigHashAll(c *vh.Ctx) uint64 {
 // that states the property on the implementation alone.
 type structT struct {
 	coq   string
-	gen   func(c *vh.Ctx) interface{}           // random spec
-	fixed func() []interface{}                   // hand-picked specs
+	gen   func(c *vh.Ctx) interface{} // random spec
+	fixed func() []interface{}        // hand-picked specs
 	load  func(raw json.RawMessage) (interface{}, error)
-	build func(spec interface{}) interface{}     // pointer to the Go value
-	fresh func() interface{}                     // pointer to a zero Go value
-	in    func(spec, goval interface{}) string   // Coq term of the marshalled value
-	out   func(goval interface{}) string         // Coq term of a decoded value
+	build func(spec interface{}) interface{}       // pointer to the Go value
+	fresh func() interface{}                       // pointer to a zero Go value
+	in    func(spec, goval interface{}) string     // Coq term of the marshalled value
+	out   func(goval interface{}) string           // Coq term of a decoded value
 	equal func(spec, orig, dec interface{}) string // "" when dec equals orig (as far as the property claims)
 }
 
@@ -337,7 +365,7 @@ type dsS struct {
 
 // ---- builders / printers
 func buildECPoint(s ecpointS) *zj.ECPoint { return &zj.ECPoint{X: s.X.big(), Y: s.Y.big()} }
-func coqECPointS(s ecpointS) string      { return vh.Pair(s.X.coq(), s.Y.coq()) }
+func coqECPointS(s ecpointS) string       { return vh.Pair(s.X.coq(), s.Y.coq()) }
 func coqECPoint(p *zj.ECPoint) string     { return vh.Pair(optMag(p.X), optMag(p.Y)) }
 func eqECPoint(a, b *zj.ECPoint) string {
 	return first(magEq("x", a.X, b.X, true), magEq("y", a.Y, b.Y, false))
@@ -352,7 +380,9 @@ func genECPoint(c *vh.Ctx) ecpointS {
 func buildPriv(s ecdhPrivS) *zj.ECDHPrivateParams {
 	return &zj.ECDHPrivateParams{Value: unhex(s.Value), Length: s.Length}
 }
-func coqPrivS(s ecdhPrivS) string { return vh.Pair(cs(unhex(s.Value)), vh.Pair(vh.Z(int64(s.Length)), "tt")) }
+func coqPrivS(s ecdhPrivS) string {
+	return vh.Pair(cs(unhex(s.Value)), vh.Pair(vh.Z(int64(s.Length)), "tt"))
+}
 func coqPriv(p *zj.ECDHPrivateParams) string {
 	return vh.Pair(cs(p.Value), vh.Pair(vh.Z(int64(p.Length)), "tt"))
 }
@@ -497,7 +527,9 @@ func genName(c *vh.Ctx) nameS {
 	}
 	return s
 }
-func buildEDI(s ediS) pkix.EDIPartyName { return pkix.EDIPartyName{NameAssigner: s.Assigner, PartyName: s.Party} }
+func buildEDI(s ediS) pkix.EDIPartyName {
+	return pkix.EDIPartyName{NameAssigner: s.Assigner, PartyName: s.Party}
+}
 func coqEDI(e pkix.EDIPartyName) string {
 	return vh.Pair(css(e.NameAssigner), vh.Pair(css(e.PartyName), "tt"))
 }
@@ -1103,34 +1135,50 @@ func structs() []*structT {
 			out:   func(v interface{}) string { return "(VNameD " + coqNameDec(v.(*pkix.Name)) + ")" },
 			equal: func(_, a, b interface{}) string { return eqName(a.(*pkix.Name), b.(*pkix.Name)) }},
 		{coq: "TGN", load: loader(gnS{}),
-			gen:   func(c *vh.Ctx) interface{} { return genGN(c) },
-			fixed: func() []interface{} { return []interface{}{gnS{}, gnS{IP: []string{"7f000001"}, Reg: [][]int{{1, 2, 3}}}} },
+			gen: func(c *vh.Ctx) interface{} { return genGN(c) },
+			fixed: func() []interface{} {
+				return []interface{}{gnS{}, gnS{IP: []string{"7f000001"}, Reg: [][]int{{1, 2, 3}}}}
+			},
 			build: func(s interface{}) interface{} { return buildGN(s.(gnS)) },
 			fresh: func() interface{} { return &x509.GeneralNames{} },
-			in:    func(_, v interface{}) string { return "(VGN " + coqGN(v.(*x509.GeneralNames), nameIn, "(list attr)") + ")" },
-			out:   func(v interface{}) string { return "(VGND " + coqGN(v.(*x509.GeneralNames), coqNameDec, "name_dec") + ")" },
+			in: func(_, v interface{}) string {
+				return "(VGN " + coqGN(v.(*x509.GeneralNames), nameIn, "(list attr)") + ")"
+			},
+			out: func(v interface{}) string {
+				return "(VGND " + coqGN(v.(*x509.GeneralNames), coqNameDec, "name_dec") + ")"
+			},
 			equal: func(_, a, b interface{}) string { return eqGN(a.(*x509.GeneralNames), b.(*x509.GeneralNames)) }},
 		{coq: "TSubIP", load: loader(subIPS{}),
-			gen:   func(c *vh.Ctx) interface{} { return genSubIP(c) },
-			fixed: func() []interface{} { return []interface{}{subIPS{"0a000001", 0}, subIPS{"0a000001", 32}, subIPS{"c0a801ff", 23}} },
+			gen: func(c *vh.Ctx) interface{} { return genSubIP(c) },
+			fixed: func() []interface{} {
+				return []interface{}{subIPS{"0a000001", 0}, subIPS{"0a000001", 32}, subIPS{"c0a801ff", 23}}
+			},
 			build: func(s interface{}) interface{} { g := buildSubIP(s.(subIPS)); return &g },
 			fresh: func() interface{} { return &x509.GeneralSubtreeIP{} },
 			in:    func(_, v interface{}) string { return "(VSubIP " + coqSubIP(v.(*x509.GeneralSubtreeIP)) + ")" },
 			out:   func(v interface{}) string { return "(VSubIP " + coqSubIP(v.(*x509.GeneralSubtreeIP)) + ")" },
-			equal: func(_, a, b interface{}) string { return eqSubIP(a.(*x509.GeneralSubtreeIP), b.(*x509.GeneralSubtreeIP)) }},
+			equal: func(_, a, b interface{}) string {
+				return eqSubIP(a.(*x509.GeneralSubtreeIP), b.(*x509.GeneralSubtreeIP))
+			}},
 		{coq: "TNC", load: loader(ncS{}),
 			gen:   func(c *vh.Ctx) interface{} { return ncS{Critical: c.Bool(), P: genHalf(c), E: genHalf(c)} },
 			fixed: func() []interface{} { return []interface{}{ncS{}} },
 			build: func(s interface{}) interface{} { return buildNC(s.(ncS)) },
 			fresh: func() interface{} { return &x509.NameConstraints{} },
-			in:    func(_, v interface{}) string { return "(VNC " + coqNC(v.(*x509.NameConstraints), nameIn, "(list attr)") + ")" },
-			out:   func(v interface{}) string { return "(VNCD " + coqNC(v.(*x509.NameConstraints), coqNameDec, "name_dec") + ")" },
+			in: func(_, v interface{}) string {
+				return "(VNC " + coqNC(v.(*x509.NameConstraints), nameIn, "(list attr)") + ")"
+			},
+			out: func(v interface{}) string {
+				return "(VNCD " + coqNC(v.(*x509.NameConstraints), coqNameDec, "name_dec") + ")"
+			},
 			equal: func(_, a, b interface{}) string { return eqNC(a.(*x509.NameConstraints), b.(*x509.NameConstraints)) }},
 		{coq: "TFingerprint", load: loader(""),
 			gen: func(c *vh.Ctx) interface{} {
 				return hex.EncodeToString(c.Bytes([]int{0, 1, 16, 20, 32, 64, c.Intn(70)}[c.Intn(7)]))
 			},
-			fixed: func() []interface{} { return []interface{}{"", hex.EncodeToString(x509.SHA256Fingerprint([]byte("x")))} },
+			fixed: func() []interface{} {
+				return []interface{}{"", hex.EncodeToString(x509.SHA256Fingerprint([]byte("x")))}
+			},
 			build: func(s interface{}) interface{} { f := x509.CertificateFingerprint(unhex(s.(string))); return &f },
 			fresh: func() interface{} { return &x509.CertificateFingerprint{} },
 			in:    func(s, _ interface{}) string { return "(VFingerprint " + cs(unhex(s.(string))) + ")" },
